@@ -1,23 +1,30 @@
 (** Term/LemmasFinal.v — the per-run certificate theorems with every cone kind discharged:
-    exponential cone by LemmasExp.v, PSD triangle cone by LemmasPsd.v.  The only cones left
-    outside are power / generalised power cones whose exponents are not dyadics p/2^k, k <= 6
-    (for those [alpha_pq]/[alphas_pq] return None, the checker answers [Unchecked], never [Holds]). *)
+    exponential cone by LemmasExp.v, PSD triangle cone by LemmasPsd.v, 3-d power cones with a
+    general dyadic exponent (real-exponent spec [in_pow_real]) by LemmasPowReal.v.  The only cones
+    left outside are generalised power cones whose exponents are not dyadics p/2^k, k <= 6
+    (for those [alphas_pq] returns None, the spec is [False] and the checker answers [Unchecked],
+    never [Holds]). *)
 From Coq Require Import List Reals Bool NArith.
 Import ListNotations.
 Require Import Clarabel.Base.Ops Clarabel.Base.Dyadic Clarabel.Term.Eval Clarabel.Term.Model
         Clarabel.Term.Spec Clarabel.Term.Check Clarabel.Term.LemmasVerdict Clarabel.Term.LemmasCheck
-        Clarabel.Term.LemmasCheck2 Clarabel.Term.LemmasExp Clarabel.Term.LemmasPsd.
+        Clarabel.Term.LemmasCheck2 Clarabel.Term.LemmasExp Clarabel.Term.LemmasPsd
+        Clarabel.Term.LemmasPowReal.
 Local Open Scope R_scope.
 
-Lemma all_kinds_certified K : forallb (certified_kind true true) K = true.
-Proof. induction K as [|k K IH]; cbn [forallb]; [reflexivity|]. rewrite IH. destruct k; reflexivity. Qed.
+Lemma all_kinds_certified K : forallb (certified_kind true true true) K = true.
+Proof.
+  induction K as [|k K IH]; cbn [forallb]; [reflexivity|]. rewrite IH.
+  destruct k as [n|n|n| |a|al d2|n]; try reflexivity. cbn [certified_kind]. destruct (alpha_pq a); reflexivity.
+Qed.
 
 Theorem chk_termtest_sound p tf tga tgr x s z :
   chk_termtest p tf tga tgr x s z = Holds ->
   TermTest (probR_of p) (d2R tf) (d2R tga) (d2R tgr) (vecR x) (vecR s) (vecR z).
 Proof.
   apply (chk_termtest_sound_gen p true (fun _ => exp_ok_sound) (fun _ => exp_dual_ok_sound)
-                                true (fun _ => psd_ok_sound)).
+                                true (fun _ => psd_ok_sound)
+         true (fun _ => pow_real_ok_sound) (fun _ => pow_real_dual_ok_sound)).
   apply all_kinds_certified.
 Qed.
 
@@ -27,7 +34,8 @@ Theorem chk_farkas_p_sound_all p ta tr c kap z :
   FarkasP (probR_of p) (d2R ta) (d2R tr) (d2R c) (d2R kap) (vecR z).
 Proof.
   apply (chk_farkas_p_sound p true (fun _ => exp_ok_sound) (fun _ => exp_dual_ok_sound)
-                            true (fun _ => psd_ok_sound)).
+                            true (fun _ => psd_ok_sound)
+         true (fun _ => pow_real_ok_sound) (fun _ => pow_real_dual_ok_sound)).
   apply all_kinds_certified.
 Qed.
 
@@ -37,7 +45,8 @@ Theorem chk_farkas_d_sound_all p ta tr c kap x s :
   FarkasD (probR_of p) (d2R ta) (d2R tr) (d2R c) (d2R kap) (vecR x) (vecR s).
 Proof.
   apply (chk_farkas_d_sound p true (fun _ => exp_ok_sound) (fun _ => exp_dual_ok_sound)
-                            true (fun _ => psd_ok_sound)).
+                            true (fun _ => psd_ok_sound)
+         true (fun _ => pow_real_ok_sound) (fun _ => pow_real_dual_ok_sound)).
   apply all_kinds_certified.
 Qed.
 
@@ -46,7 +55,8 @@ Theorem case_report_sound p se o :
   ReportNonInf p se o.
 Proof.
   apply (case_report_sound_noninf p true (fun _ => exp_ok_sound) (fun _ => exp_dual_ok_sound)
-                                  true (fun _ => psd_ok_sound)).
+                                  true (fun _ => psd_ok_sound)
+         true (fun _ => pow_real_ok_sound) (fun _ => pow_real_dual_ok_sound)).
   apply all_kinds_certified.
 Qed.
 
